@@ -152,8 +152,16 @@ def extract(pda):
                           tuple(_k(x.value) for x in gam)))
     states = [_k(q.value) for q in pda.states]
     stack = [_k(x.value) for x in pda.stack_symbols]
-    g = pda.to_networkx()
     z0 = None
+    try:
+        g = pda.to_networkx()
+    except TypeError:
+        # symbol values that JSON cannot write (V objects, kept as they are by cfg.to_pda()): the export is outside
+        # its domain, and the start stack symbol has no other public reader -- read the attribute
+        import networkx
+        g = networkx.MultiDiGraph()
+        if getattr(pda, "_start_stack_symbol", None) is not None:
+            z0 = _k(pda._start_stack_symbol.value)
     if "INITIAL_STACK_HIDDEN" in g.nodes:
         txt = _unjson(json.loads(g.nodes["INITIAL_STACK_HIDDEN"]["label"]))
         cands = sorted({_k(x.value) for x in pda.stack_symbols if _unjson(json.loads(json.dumps(x.value))) == txt})
